@@ -566,11 +566,18 @@ def make_numpy(interp):
     def np_empty(shape, dtype=None, **k):
         return A.sym_array(A.fresh_name("empty"), _shape_tuple(shape, interp))
 
+    def np_full_like(x, val, dtype=None, **k):
+        if isinstance(x, (list, tuple)):
+            x = A.array_from_nested(x)
+        if not isinstance(x, NDArr):
+            return val  # 0-d result treated as a scalar
+        return A.fresh_array("full_like", x.shape, lambda idx: val)
+
     def np_zeros_like(x, dtype=None, **k):
-        return A.fresh_array("zeros", x.shape, lambda idx: Fraction(0))
+        return np_full_like(x, Fraction(0))
 
     def np_ones_like(x, dtype=None, **k):
-        return A.fresh_array("ones", x.shape, lambda idx: Fraction(1))
+        return np_full_like(x, Fraction(1))
 
     def np_full(shape, val, **k):
         return A.fresh_array("full", _shape_tuple(shape, interp), lambda idx: val)
@@ -755,7 +762,7 @@ def make_numpy(interp):
 
     attrs = {
         "array": np_array, "asarray": np_asarray, "asanyarray": np_asarray, "ascontiguousarray": np_asarray,
-        "empty_like": np_empty_like, "empty": np_empty, "zeros_like": np_zeros_like, "ones_like": np_ones_like,
+        "empty_like": np_empty_like, "full_like": np_full_like, "empty": np_empty, "zeros_like": np_zeros_like, "ones_like": np_ones_like,
         "zeros": np_zeros, "ones": np_ones, "full": np_full, "arange": np_arange,
         "isclose": np_isclose, "allclose": lambda *a, **k: Opaque("np.allclose"),
         "isscalar": np_isscalar, "ndim": np_ndim, "shape": np_shape, "where": np_where,
